@@ -326,6 +326,16 @@ func c02Gen(t *rapid.T) c02Case {
 		}
 	}
 	c := c02Case{Signer: c02GenSigner(t, "signer"), Wrong: c02GenSigner(t, "wrong"), Respell: rapid.Uint64().Draw(t, "respell")}
+	if rapid.IntRange(0, 2).Draw(t, "nearMiss") == 0 {
+		// "every other name" includes the names closest to the signer's: other letter case, a trailing
+		// dot, an explicit default port, a prefix, padding; likewise for the key ID
+		n, k := c.Signer.Name, c.Signer.KeyID
+		c.Wrong.Name = rapid.SampledFrom([]string{strings.ToUpper(n), strings.ToUpper(n[:1]) + n[1:], strings.ToLower(n), n + ".", n + ":8448", " " + n, n + " ", n[:len(n)-1], "x" + n, "@alice:" + n}).Draw(t, "nearName")
+		c.Wrong.KeyID = rapid.SampledFrom([]string{k, k, strings.ToUpper(k), "Ed25519" + k[7:], k + " ", k + "x", k[:len(k)-1]}).Draw(t, "nearKeyID")
+		if rapid.Bool().Draw(t, "nearSameKey") {
+			c.Wrong.Key = c.Signer.Key
+		}
+	}
 	if rapid.Bool().Draw(t, "preSigs") {
 		sigs := jv{K: 'o'}
 		n := rapid.IntRange(1, 2).Draw(t, "npre")
